@@ -796,9 +796,11 @@ struct real
   }
 
   // one case: build, parse for real, interpret, compare
-  static void run_case(Ints const &ints, char const *chname)
+  static void run_case(Ints const &ints, char const *chname) { run_decoded(decode(ints), chname); }
+  // warmups: the SAME parser objects first parse `warm_input` that many times (results ignored):
+  // parsers are immutable values, an earlier parse must not influence a later one
+  static void run_decoded(peg_case const &pc, char const *chname, int warmups = 0, std::string const &warm_input = std::string())
   {
-    peg_case const pc = decode(ints);
     std::string real_out;
     {
       slots rs(pc.rules.size());
@@ -815,10 +817,14 @@ struct real
       if (pc.via_grammar)
       {
         fp::grammar<R, Ch, dyn_skipper> const g{fcppt::make_cref(top), dyn_skipper{pc.skipper}};
+        for (int w = 0; w < warmups; ++w) (void)fp::grammar_parse_string(ws(warm_input), g);
         real_out = render(fp::grammar_parse_string(ws(pc.input), g));
       }
       else
+      {
+        for (int w = 0; w < warmups; ++w) (void)fp::phrase_parse_string(*top.get_pointer(), ws(warm_input), dyn_skipper{pc.skipper});
         real_out = render(fp::phrase_parse_string(*top.get_pointer(), ws(pc.input), dyn_skipper{pc.skipper}));
+      }
     }
     model m{pc.input, pc.rules};
     std::size_t p0 = 0;
@@ -839,6 +845,88 @@ struct real
     (void)chname;
   }
 };
+
+// ---- long inputs and repeated parses over grammars with type-erased (base) rules -----------------
+inline np mkn(kind_t k, std::string s = std::string(), std::vector<np> kids = {})
+{
+  auto n = std::make_shared<node>();
+  n->k = k;
+  n->s = std::move(s);
+  n->c = std::move(kids);
+  return n;
+}
+inline np mkref(int i)
+{
+  auto n = std::make_shared<node>();
+  n->k = REF;
+  n->ref = i;
+  return n;
+}
+constexpr int long_templates = 4;
+constexpr int long_sizes_n = 8;
+inline int long_size(i64 i)
+{
+  static int const sizes[] = {0, 10, 255, 256, 257, 300, 700, 2000};
+  return sizes[((i % long_sizes_n) + long_sizes_n) % long_sizes_n];
+}
+// template 0: (rule0 / 'b')* with rule0 = 'a' on b^n "ab" - rule0 fails (and is backtracked over) n times
+// template 1: the same, the input ends in "ac": the leftover makes the string entry point fail
+// template 2: nested brackets rule0 = '(' rule0 ')' / eps, depth min(n, 300)
+// template 3: template 0 on the short input "bab" after n earlier FAILING parses ("c") and n
+//             succeeding ones through the very same parser objects
+inline peg_case long_case(i64 t_, i64 n_, bool via_grammar, int &warmups, std::string &warm_input)
+{
+  int const t = static_cast<int>(((t_ % long_templates) + long_templates) % long_templates), n = long_size(n_);
+  peg_case pc;
+  pc.skipper = 0;
+  pc.via_grammar = via_grammar;
+  warmups = 0;
+  if (t == 2)
+  {
+    pc.rules.push_back(mkn(ALT, "", {mkn(SEQ, "", {mkn(LIT, "("), mkn(SEQ, "", {mkref(0), mkn(LIT, ")")})}), mkn(EPS)}));
+    pc.top = mkref(0);
+    int const depth = n > 300 ? 300 : n;
+    pc.input = std::string(static_cast<std::size_t>(depth), '(') + std::string(static_cast<std::size_t>(depth), ')');
+    return pc;
+  }
+  pc.rules.push_back(mkn(LIT, "a"));
+  pc.top = mkn(REP, "", {mkn(ALT, "", {mkref(0), mkn(LIT, "b")})});
+  if (t == 3)
+  {
+    pc.input = "bab";
+    warmups = n;
+    warm_input = n % 2 == 0 ? "bbbbc" : "bbab";
+    return pc;
+  }
+  pc.input = std::string(static_cast<std::size_t>(n), 'b') + (t == 0 ? "ab" : "ac");
+  return pc;
+}
+template <typename Ch>
+void long_one(Ints const &c, char const *chname)
+{
+  int warmups = 0;
+  std::string warm;
+  i64 const t = c.size() > 0 ? c[0] : 0, n = c.size() > 1 ? c[1] : 0, g = c.size() > 2 ? c[2] : 0;
+  peg_case const pc = long_case(t, n, g % 2 != 0, warmups, warm);
+  real<Ch>::run_decoded(pc, chname, warmups, warm);
+}
+inline std::string long_describe(Ints const &c, char const *chname)
+{
+  i64 const t = c.size() > 0 ? c[0] : 0, n = c.size() > 1 ? c[1] : 0, g = c.size() > 2 ? c[2] : 0;
+  static char const *const names[] = {"(rule0/'b')* with rule0='a' on b^n ab", "(rule0/'b')* with rule0='a' on b^n ac", "rule0 = '(' rule0 ')' / eps on brackets of depth min(n,300)", "(rule0/'b')* on bab after n earlier parses through the same parser objects"};
+  return std::string("<") + chname + "> " + names[((t % long_templates) + long_templates) % long_templates] + ", n = " + std::to_string(long_size(n)) + (g % 2 != 0 ? " (grammar_parse_string)" : " (phrase_parse_string)");
+}
+template <typename Ch>
+void long_run(char const *chname)
+{
+  for (i64 t = 0; t < long_templates; ++t)
+    for (i64 n = 0; n < long_sizes_n; ++n)
+      for (i64 g = 0; g < 2; ++g)
+      {
+        cur3(t, n, g);
+        long_one<Ch>({t, n, g}, chname);
+      }
+}
 }
 
 #endif
